@@ -173,6 +173,17 @@ def main(argv):
                 ck.count("K_agree")
             else:
                 k_bad.append((src, cfg, detail))
+    # bridge M-LOWER -> M-IMPORT: the hypothesis of C14.plan_is_model, evaluated by the model on every alias of every program
+    if b["driver_ok"]:
+        import leandrv
+        hyp_bad = []
+        for (src, cfg), r in zip(pairs, leandrv.run_batch(lower_common.model_requests(pairs))):
+            if r.get("imp_ok") is True:
+                ck.count("bridge_hypothesis_holds")
+            else:
+                hyp_bad.append(src)
+        if hyp_bad:
+            ck.broken.append(f"hypothesis of C14.plan_is_model (text-level = path-level view of a dotted name) fails on {len(hyp_bad)} programs, first: {hyp_bad[0]!r}")
     if k_bad:
         ck.broken.append(f"correspondence K(lowerFull = convert): {len(k_bad)} import programs differ, first: {k_bad[0][2][:300]} on {k_bad[0][0]!r}")
     failing.sort(key=lambda f: len(f[0]))
